@@ -459,6 +459,8 @@ class AuthorizationRequest(oauth2.AuthorizationRequest):
         All parameter values that are present both in the OAuth 2.0
         Authorization Request and in the OpenID Request Object MUST exactly
         match."""
+        # what a message holds as verified is what this verification established
+        clear_verified_claims(self)
         super(AuthorizationRequest, self).verify(**kwargs)
 
         args = {}
